@@ -182,10 +182,10 @@ func ruleInitGuards(c *eng.Ctx) {
 			stats = append(stats, call)
 		}
 	}
-	lists := c.P.CallsTo(fn, pkgRepo+".(*Repository).List")
+	probes := initProbes(c, rule, fn)
 	inits := c.P.CallsTo(fn, pkgRepo+".(*Repository).init")
-	if len(stats) != 1 || len(lists) < 2 || len(inits) != 1 {
-		c.Bad(rule, "Init:shape", fn.Pos(), "expected one config Stat, two listings (keys, snapshots) and the init call, found %d/%d/%d", len(stats), len(lists), len(inits))
+	if len(stats) != 1 || len(probes) < 2 || len(inits) != 1 {
+		c.Bad(rule, "Init:shape", fn.Pos(), "expected one config Stat, two listings (keys, snapshots; directly or through a helper) and the init call, found %d/%d/%d", len(stats), len(probes), len(inits))
 		return
 	}
 	ii := inits[0].(ssa.Instruction)
@@ -200,33 +200,10 @@ func ruleInitGuards(c *eng.Ctx) {
 	kinds := map[int64]string{}
 	keyK, _ := constIntVal(c, rule, pkgRestic+".KeyFile")
 	snapK, _ := constIntVal(c, rule, pkgRestic+".SnapshotFile")
-	for _, l := range lists {
-		c.MustPass(rule, "Init:listing-found-nothing→init", eng.Entry(fn), ii, eng.SuccessCut(l), "the listing callback was never called (it returns an error for any file)")
-		if k, isK := eng.ConstInt(eng.Arg(l, 1)); isK {
-			kinds[k] = "listed"
-		}
-		// the callback fails for every listed file
-		for _, a := range l.Common().Args {
-			for _, r := range eng.Origins(a, nil) {
-				var lit *ssa.Function
-				if mc, ok := r.(*ssa.MakeClosure); ok {
-					lit, _ = mc.Fn.(*ssa.Function)
-				}
-				if f, ok := r.(*ssa.Function); ok && f.Parent() != nil {
-					lit = f
-				}
-				{
-					if lit != nil {
-						always := true
-						for _, ret := range eng.Returns(lit) {
-							if c.P.MayBeNil(eng.RetVal(ret, 0)) {
-								always = false
-							}
-						}
-						c.Check(always, rule, c.P.FnName(lit)+":any-file-is-an-error", lit.Pos(), "the listing callback returns a non-nil error on every path")
-					}
-				}
-			}
+	for _, p := range probes {
+		c.MustPass(rule, "Init:listing-found-nothing→init", eng.Entry(fn), ii, p.empty, "the listing succeeded and its callback was never called (it returns an error for any file)")
+		if p.kind >= 0 {
+			kinds[p.kind] = "listed"
 		}
 	}
 	c.Check(kinds[keyK] != "" && kinds[snapK] != "", rule, "Init:lists-keys-and-snapshots", fn.Pos(), "both key files and snapshot files are listed before initialising")
